@@ -58,6 +58,26 @@ class Infra(Exception):
 # --------------------------------------------------------------------------- lean
 
 
+_DRIVER_RUN: str | None = None
+
+
+def _snapshot_driver() -> None:
+    """Copy the driver binary (while the build lock is held) so that a concurrent relink by
+    another check or developer cannot pull it from under this run."""
+    global _DRIVER_RUN
+    import atexit
+    import shutil
+
+    dst = f"{DRIVER}.run{os.getpid()}"
+    shutil.copy2(DRIVER, dst)
+    _DRIVER_RUN = dst
+    atexit.register(lambda: os.path.exists(dst) and os.remove(dst))
+
+
+def driver_path() -> str:
+    return _DRIVER_RUN or DRIVER
+
+
 def _strip_lean_comments(src: str) -> str:
     # remove nested /- -/ block comments and -- line comments (string literals are rare in
     # proof files; a forbidden token inside a string literal is still flagged, on purpose)
@@ -111,6 +131,8 @@ def lake_build(timeout: int = 3000) -> tuple[bool, str]:
         p = subprocess.run(
             ["lake", "build"], cwd=LEAN_DIR, capture_output=True, text=True, timeout=timeout
         )
+        if p.returncode == 0 and os.path.exists(DRIVER):
+            _snapshot_driver()
         return p.returncode == 0, (p.stdout + p.stderr)[-6000:]
     except subprocess.TimeoutExpired as e:  # pragma: no cover
         raise Infra(f"lake build timed out: {e}")
@@ -150,10 +172,10 @@ def lean_batch(requests: list[dict], timeout: int = 1800) -> list[dict]:
     """Send JSON requests (one per line) to the compiled model driver; one JSON answer per line."""
     if not requests:
         return []
-    if not os.path.exists(DRIVER):
+    if not os.path.exists(driver_path()):
         raise Infra("model driver not built")
     data = "\n".join(json.dumps(r, separators=(",", ":")) for r in requests) + "\n"
-    p = subprocess.run([DRIVER], input=data, capture_output=True, text=True, timeout=timeout)
+    p = subprocess.run([driver_path()], input=data, capture_output=True, text=True, timeout=timeout)
     lines = [l for l in p.stdout.split("\n") if l]
     if p.returncode != 0 or len(lines) != len(requests):
         raise Infra(
